@@ -88,6 +88,7 @@ def match_cases(draw):
     if mode == "list" and dt not in ("i8", "f8", "S", "U"):
         mode = "plain"      # a Python list does not carry the dtype; only natively inferred ones
     case = {"dtype": dt, "a1": a1, "a2": a2, "mode": mode,
+            "flagas": draw(st.sampled_from(["bool", "bool", "int", "npbool"])),
             "layout": draw(st.sampled_from(["plain", "plain", "plain", "swapped", "swapped-view", "strided", "field"]))}
     if mode == "repeat1":
         case["dup_at"] = draw(st.integers(0, len(a1) - 1))
@@ -128,14 +129,19 @@ def check_match(case, ctx):
         arg1 = a1[0]
     if mode == "scalar2":
         arg2 = a2[0]
+    # the presorted flag as callers spell it: a bool, an int, or the numpy bool a comparison produces
+    fl = {"bool": bool, "int": int, "npbool": np.bool_}[case.get("flagas", "bool")]
     if mode == "presorted":
-        r = must(nu.match, arg1, arg2, presorted=True)
+        r = must(nu.match, arg1, arg2, presorted=fl(True))
     elif mode == "multi":
         r = must(nu.match_multi, arg1, arg2)
+    elif case.get("flagas", "bool") != "bool":
+        r = must(nu.match, arg1, arg2, presorted=fl(False))
     else:
         r = must(nu.match, arg1, arg2)
     require(isinstance(r, tuple) and len(r) == 2, "match must return two index arrays, got %r", r)
     i1, i2 = np.asarray(r[0]), np.asarray(r[1])
+    kept = (r[0], r[1], np.array(r[0], copy=True), np.array(r[1], copy=True))
     # model
     pos1 = {}
     for i, v in enumerate(a1.tolist()):
@@ -155,6 +161,13 @@ def check_match(case, ctx):
     require(all(x < y for x, y in zip(i2.tolist(), i2.tolist()[1:])),
             "second index array not strictly increasing: %r", i2.tolist())
     require(got == exp, "pairs differ from the model: got %r expected %r", got, exp)
+    if mode in ("plain", "presorted") and a2.size >= 2:
+        # the index arrays handed out stay what they were when the caller matches something else afterwards
+        sut(nu.match, a1, a2[: a2.size // 2])
+        require(np.array_equal(np.asarray(kept[0]), kept[2]) and np.array_equal(np.asarray(kept[1]), kept[3]),
+                "the index arrays returned by match() changed when match() was called again: now %r / %r, were %r / %r",
+                np.asarray(kept[0]).tolist()[:8], np.asarray(kept[1]).tolist()[:8], kept[2].tolist()[:8],
+                kept[3].tolist()[:8])
     if lay == "plain" and mode == "plain" and isinstance(arg1, np.ndarray) and a1.size >= 2:
         # the caller re-orders his first array in place and matches again with the same object: the pairs must
         # follow the new contents
@@ -200,6 +213,8 @@ def _relayout(a, lay):
 
 def classify_match(case):
     labs = ["dtype:" + case["dtype"], "mode:" + case["mode"], "layout:" + case.get("layout", "plain")]
+    if case["mode"] in ("plain", "presorted", "list", "scalar1", "scalar2"):
+        labs.append("presorted-flag-as:" + case.get("flagas", "bool"))
     if case["mode"] in ("repeat1",):
         labs.append("nt:rejects-repeat")
         return labs
@@ -296,6 +311,11 @@ def check_unique(case, ctx):
     gotvals = set((_key(dt, v) if dt in FLT_TYPES else v) for v in a[idx].tolist())
     require(gotvals == set(groups), "unique() indices do not cover every distinct value once: arr=%r idx=%r",
             a.tolist(), idx.tolist())
+    first, first_copy = idx, idx.copy()
+    # a later call on other data (not longer than this one) does not disturb the indices already handed out
+    sut(nu.unique, a[::-1][: max(1, a.size - 1)].copy())
+    require(np.array_equal(first, first_copy), "the indices returned by unique() changed when unique() was called "
+            "again on other data: now %r, were %r", first.tolist()[:10], first_copy.tolist()[:10])
     if case["values"]:
         vals = np.atleast_1d(must(nu.unique, a, values=True))
         require(vals.dtype == a.dtype, "unique(values=True) changed dtype %r -> %r", a.dtype, vals.dtype)
@@ -319,6 +339,10 @@ def check_rem_dup(case, ctx):
     require(idx.size == len(groups), "rem_dup returned %d indices for %d distinct values (arr=%r idx=%r)",
             idx.size, len(groups), a.tolist(), idx.tolist())
     require(all(0 <= i < a.size for i in idx.tolist()), "rem_dup index out of range: %r", idx.tolist())
+    first_copy = idx.copy()
+    sut(nu.rem_dup, a[::-1][: max(1, a.size - 1)].copy(), flag[::-1][: max(1, a.size - 1)].copy())
+    require(np.array_equal(idx, first_copy), "the indices returned by rem_dup() changed when rem_dup() was called "
+            "again on other data: now %r, were %r", idx.tolist()[:10], first_copy.tolist()[:10])
     seen = set()
     for i in idx.tolist():
         v = a.tolist()[i]
@@ -360,7 +384,15 @@ BIG_SIZES = [1001, 4097, 10001, 20011, 65537, 100003]
 
 @st.composite
 def wide_cases(draw):
-    kind = draw(st.sampled_from(["mixed", "mixed", "large", "large-mixed"]))
+    kind = draw(st.sampled_from(["mixed", "mixed", "large", "large-mixed", "large-first"]))
+    if kind == "large-first":
+        # first array hundreds to ten thousands of times longer than the second, which repeats values
+        d1 = draw(st.sampled_from(["i4", "i8", "f8", "u2"]))
+        n1 = draw(st.sampled_from([101, 257, 1001, 4097, 20011])) + draw(st.integers(-2, 2))
+        return {"kind": kind, "dt1": d1, "dt2": d1, "n1": n1, "seed": draw(st.integers(0, 2**32 - 1)),
+                "pick2": draw(st.lists(st.integers(-3, n1 + 2), min_size=2, max_size=9)),
+                "dup2": draw(st.lists(st.integers(0, 8), min_size=1, max_size=4)),
+                "mode": draw(st.sampled_from(["plain", "plain", "presorted", "multi"]))}
     if kind == "large":
         d1 = d2 = draw(st.sampled_from(["i4", "i8", "u2", "f8"]))
     else:
@@ -395,6 +427,20 @@ def wide_cases(draw):
 
 def _wide_arrays(case):
     d1, d2 = case["dt1"], case["dt2"]
+    if case["kind"] == "large-first":
+        rng = np.random.Generator(np.random.PCG64(case["seed"]))
+        n1 = case["n1"]
+        v1 = (rng.permutation(3 * n1)[:n1] - n1).tolist()       # distinct, unsorted, with gaps
+        if d1 == "u2":
+            v1 = [v % 65536 for v in (rng.permutation(65536)[:n1]).tolist()]
+        if case["mode"] == "presorted":
+            v1 = sorted(v1)
+        # second array: members of the first by position (out-of-range positions become non-members), some repeated
+        v2 = [v1[k] if 0 <= k < n1 else (max(v1) + 1 + abs(k)) % (65536 if d1 == "u2" else 2**31) for k in case["pick2"]]
+        v2 = v2 + [v2[k % len(v2)] for k in case["dup2"]]
+        if d1 == "f8":
+            v1, v2 = [float(v) for v in v1], [float(v) for v in v2]
+        return v1, v2, np.array(v1, dtype=d1), np.array(v2, dtype=d2)
     v1 = list(case["a1"])
     if case["mode"] == "presorted":
         v1 = sorted(v1)
@@ -445,6 +491,10 @@ def check_wide(case, ctx):
 
 def classify_wide(case):
     labs = ["kind:" + case["kind"], "pair:%s/%s" % (case["dt1"], case["dt2"]), "mode:" + case["mode"]]
+    if case["kind"] == "large-first":
+        n2 = len(case["pick2"]) + len(case["dup2"])
+        labs += ["nt:large-first-array", "n1/n2:%s" % (">=100" if case["n1"] >= 100 * n2 else "<100")]
+        return labs
     if case["kind"] != "large":
         labs.append("nt:mixed-integer-dtypes")
         d1, d2 = np.iinfo(case["dt1"]), np.iinfo(case["dt2"])
